@@ -13,7 +13,7 @@ DESCRIPTION = {
              "(incl. RFC 6238 appendix-B times) x offsets, SCRAM passwords/authids/salts/costs for both KDFs, Ed25519 seeds x challenges x channel ids. "
              "Oracle = independent verifiers: hashlib.pbkdf2_hmac + hmac (CRA), RFC 4226/6238 reference from hmac/struct + the RFC vectors (TOTP), RFC 5802 "
              "verification (recover ClientKey from the proof, H(ClientKey)==StoredKey; ServerSignature) with SaltedPassword from hashlib / argon2 raw API (SCRAM), "
-             "cryptography's Ed25519 public-key verification over challenge XOR channel-id (cryptosign).  CRA authenticators are re-used for further challenges with the same salt and other iteration counts / key lengths.  Exhaustive tampering: every single-bit flip of the SCRAM "
+             "cryptography's Ed25519 public-key verification over challenge XOR channel-id (cryptosign).  CRA authenticators are re-used for further challenges with the same salt and other iteration counts / key lengths.  Every single-bit alteration and several re-spellings of a TOTP ticket are rejected by check_totp.  Exhaustive tampering: every single-bit flip of the SCRAM "
              "server signature (256) must be rejected by on_welcome, as must any WELCOME that was not preceded by a processed CHALLENGE (incl. the signature computable from empty inputs); every single-bit flip of an Ed25519 signature (512) rejected; altered challenge/key/salt "
              "changes the signature.  Non-trivial = non-ASCII secret, boundary length, or a tampered value; distinct by (mechanism, parameter digest)."),
     "assumptions": ["Argon2 costs kept small (time<=3, memory<=64KiB) to keep the search wide", "TOTP clock = autobahn.wamp.auth.time patched to drawn instants"],
@@ -180,6 +180,27 @@ def totp(col, seed, n, only=None):
             ok = auth.check_totp(secret, ticket)
             if ok != (ticket in window):
                 raise Violation("C19|totp|check-window", "offset %d ticket %s accepted=%r expected %r" % (off, ticket, ok, ticket in window), case)
+        # every single-bit alteration of a genuine ticket (and a few re-spellings of the same number) is a different ticket
+        window = {hotp_ref(c["key"], base_counter + k) for k in (-1, 0, 1) if base_counter + k >= 0}
+        genuine = hotp_ref(c["key"], base_counter)
+        raw = genuine.encode("ascii")
+        altered = []
+        for bit in range(len(raw) * 8):
+            b = bytearray(raw)
+            b[bit // 8] ^= 1 << (bit % 8)
+            try:
+                altered.append(bytes(b).decode("utf-8"))
+            except UnicodeDecodeError:
+                pass
+        altered += [" " + genuine, genuine + " ", genuine + "\n", "+" + genuine, genuine.lstrip("0") or "0", "0" + genuine, genuine[:3] + "_" + genuine[3:], genuine[:-1]]
+        for t_ in altered:
+            if t_ not in window:
+                try:
+                    acc = auth.check_totp(secret, t_)
+                except Exception:
+                    acc = False
+                if acc:
+                    raise Violation("C19|totp|altered-ticket-accepted", "genuine %r, altered %r accepted" % (genuine, t_), case)
         wrong = "%06d" % ((int(ref) + 1) % 1000000)
         if auth.check_totp(secret, wrong) and wrong not in {hotp_ref(c["key"], base_counter + k) for k in (-1, 0, 1) if base_counter + k >= 0}:
             raise Violation("C19|totp|wrong-ticket-accepted", wrong, case)
